@@ -164,6 +164,7 @@ Twice(w) == {Tup(<<w, Coll("list", "builtin", w)>>), Tup(<<Coll("list", "builtin
 TwicePaths == UNION {Twice(w) : w \in {Wrap("newtype", Cls("D1")), Wrap("alias", Cls("D1")), Wrap("salias", Cls("D1")),
                                        Wrap("alias", Coll("list", "builtin", P("int"))), Wrap("alias", Coll("list", "builtin", P("date"))),
                                        Wrap("alias", Opt(P("date"))),
+                                       Wrap("salias", Coll("list", "builtin", P("date"))), Wrap("salias", Coll("list", "builtin", Cls("D1"))),
                                        Wrap("newtype", P("int"))}}
 NameClash == {Tup(<<Cls("D1"), Cls("D1b"), Cls("D1")>>), Tup(<<Cls("D1b"), Cls("D1"), Cls("D1b")>>),
               Tup(<<Cls("R1"), Cls("R1b")>>), Tup(<<Cls("R1b"), Cls("R1")>>),
